@@ -244,8 +244,9 @@ class Degrees:
                 for a, b in zip(t.elts, v):
                     self._assign(a, b, env, f, st)
             else:
+                # unpacking an ARRAY along its first axis (`a, b, c = self.faces[i, :3]`): every element has the array's degree
                 for a in t.elts:
-                    self._assign(a, None if isinstance(v, tuple) else v if False else None, env, f, st)
+                    self._assign(a, v if (not isinstance(v, tuple) and _is_deg(v) and isinstance(getattr(st, "value", None), ast.Subscript)) else None, env, f, st)
         elif isinstance(t, ast.Subscript):
             # store into an array: the stored value must have the array's degree
             cur = self.ev(t, env, f)
